@@ -36,7 +36,7 @@ ANCHORS = [
     "stereomolgraph.algorithms.isomorphism:_stereo_change_feasibility",
 ]
 REQUIRED_ANCHORS = ANCHORS
-REQUIRED = ["oracle_equal", "oracle_unequal", "cross_class_pairs", "mutation_pairs", "independent_pairs", "with_placeholder"]
+REQUIRED = ["oracle_equal", "oracle_unequal", "cross_class_pairs", "mutation_pairs", "independent_pairs", "with_placeholder", "wl_hard_pairs"]
 
 
 def gen_cases(ctx):
@@ -61,6 +61,22 @@ def gen_cases(ctx):
             else:
                 b = gen.random_pg(rng, cls, n_range=(len(a["atoms"]),) * 2, alphabet=alpha, p_stereo=0.7, allow_isolated=False)
             yield {"kind": "indep", "cls": cls, "a": pg_to_json(a), "b": pg_to_json(b), "mut": None, "bseed": rng.randrange(1 << 30)}
+        elif j == 8:  # 1-WL-hard pairs: unions of regular components that colour refinement cannot separate
+            group = rng.choice(gen.WL_GROUPS)
+            ca = rng.choice(group)
+            hyd = rng.choice([0, 0, 2]) if all(c.startswith("ring") for g_ in group for c in g_) else 0
+            a = gen.wl_hard_pg(rng, cls, comps=ca, hydrogens=hyd, decorate_p=0.3, z=6)
+            how = rng.random()
+            if how < 0.35:
+                b = sem.pg_relabel(a, gen.random_bijection(rng, a))
+            elif how < 0.6:
+                b = sem.pg_relabel(a, gen.random_bijection(rng, a))
+                r = gen.mutate(rng, b, rng.choice(["role", "move_bond", "invert", "swap_roles"]))
+                if r:
+                    b = r[1]
+            else:
+                b = sem.pg_relabel(gen.wl_hard_pg(rng, cls, comps=rng.choice(group), hydrogens=hyd, decorate_p=0.3, z=6), gen.random_bijection(rng, a, "fresh"))
+            yield {"kind": "wl-hard", "cls": cls, "a": pg_to_json(a), "b": pg_to_json(b), "mut": None, "bseed": rng.randrange(1 << 30)}
         elif j < 9:  # single-feature mutation
             a = gen.random_pg(rng, cls, n_range=big if rng.random() < 0.5 else (3, 9), alphabet=rng.choice([gen.TINY, gen.SMALL, gen.WIDE]), p_stereo=0.7)
             r = gen.mutate(rng, sem.pg_relabel(a, gen.random_bijection(rng, a)))
@@ -146,7 +162,7 @@ def check_case(ctx, case):
     )
     ctx.case((kind, case["mut"], sem.canon_key(a), sem.canon_key(b)), nontrivial)
     ctx.count("oracle_equal" if truth else "oracle_unequal")
-    ctx.count("mutation_pairs" if kind == "mut" else "independent_pairs")
+    ctx.count("mutation_pairs" if kind == "mut" else "wl_hard_pairs" if kind == "wl-hard" else "independent_pairs")
     if any(None in d[1] for d in descs):
         ctx.count("with_placeholder")
     if kind == "mut":
